@@ -18,12 +18,12 @@ func init() {
 	register(&Prop{
 		ID:    "C12",
 		Level: "exploration",
-		Rule: "PES packets encoded by the reference codec from random/swept header models (all 256 flag bytes x 16 extension subsets, single-bit clock values, all trick mode bytes, " +
+		Rule: "PES packets encoded by the reference codec from random/swept header models (all 256 flag bytes x 32 extension subsets incl. pack_header_field, single-bit clock values, all trick mode bytes, " +
 			"CRC values, header stuffing, four PES_packet_length modes) and decoded by the library (NextData through TS packets and the parsePESData hook); writer-supported headers " +
 			"written with WriteData and compared byte for byte after independent reassembly; ClockReference.Duration against big.Int; distinct = hash of the PES bytes; " +
 			"non-trivial = optional header with at least one optional field, or a non-exact length mode",
 		Assumptions: []string{"reference = refts/pes.go from ISO 13818-1 2.4.3.6-7 (anchored by a hand-assembled PTS vector in the self check)",
-			"pack_header_field is outside the modelled domain (the property does not list it)",
+			"pack_header_field: the struct keeps pack_field_length only; the pack_header() bytes must be stepped over so that the listed fields after it decode correctly",
 			"writer policy as documented: marker '10', exact header_data_length, no header stuffing, PES_packet_length 0 for stream ids 0xE0/0xFD or above 65535, CRC and pack header flags not writable",
 			"Duration: truncating each term or the sum are both accepted"},
 		Shards: 32,
@@ -35,7 +35,7 @@ func init() {
 			need(m, &out, "pes_written_and_compared", 20000)
 			need(m, &out, "durations_checked", 500000)
 			needSet(m, &out, "flag_bytes", 256)
-			needSet(m, &out, "ext_subsets", 16)
+			needSet(m, &out, "ext_subsets", 32)
 			needSet(m, &out, "trick_bytes", 256)
 			needSet(m, &out, "length_modes", 4)
 			return out
@@ -154,9 +154,9 @@ func checkPESDecode(c *mon.Ctx, stage string, idx int64, r *rand.Rand, pc *pesCa
 		c.Seen("flag_bytes", fmt.Sprint(fb))
 		if o.HasExtension {
 			e := 0
-			for k, v := range []bool{o.HasPrivateData, o.HasProgramPacketSequenceCounter, o.HasPSTDBuffer, o.HasExtension2} {
+			for k, v := range []bool{o.HasPackHeaderField, o.HasPrivateData, o.HasProgramPacketSequenceCounter, o.HasPSTDBuffer, o.HasExtension2} {
 				if v {
-					e |= 8 >> uint(k)
+					e |= 16 >> uint(k)
 				}
 			}
 			c.Seen("ext_subsets", fmt.Sprint(e))
@@ -228,7 +228,7 @@ func setLenMode(r *rand.Rand, pc *pesCase) {
 
 func runC12(c *mon.Ctx) {
 	// stage flags: every flag byte x every extension subset
-	for f := int64(0); f < 256*16; f++ {
+	for f := int64(0); f < 256*32; f++ {
 		if !c.Mine("flags", f) {
 			continue
 		}
